@@ -235,6 +235,19 @@ func (r *NgReader) readOption() error {
 	return nil
 }
 
+// errNgOptionTooShort is returned for an option whose value is shorter than the fixed-size value it is parsed as.
+func errNgOptionTooShort(code ngOptionCode, have, want int) error {
+	return fmt.Errorf("pcapng option %d has length %d, need at least %d", code, have, want)
+}
+
+// checkOptionLength verifies that the value of the current option has at least want octets.
+func (r *NgReader) checkOptionLength(want int) error {
+	if len(r.currentOption.value) < want {
+		return errNgOptionTooShort(r.currentOption.code, len(r.currentOption.value), want)
+	}
+	return nil
+}
+
 // readSectionHeader parses the full section header and implements section skipping in case of version mismatch
 // if needed, the first interface is read
 func (r *NgReader) readSectionHeader() error {
@@ -400,12 +413,21 @@ OPTIONS:
 			intf.Description = string(r.currentOption.value)
 		case ngOptionCodeInterfaceFilter:
 			// ignore filter type (first byte) since it is not specified
+			if err := r.checkOptionLength(1); err != nil {
+				return err
+			}
 			intf.Filter = string(r.currentOption.value[1:])
 		case ngOptionCodeInterfaceOS:
 			intf.OS = string(r.currentOption.value)
 		case ngOptionCodeInterfaceTimestampOffset:
+			if err := r.checkOptionLength(8); err != nil {
+				return err
+			}
 			intf.TimestampOffset = r.getUint64(r.currentOption.value[:8])
 		case ngOptionCodeInterfaceTimestampResolution:
+			if err := r.checkOptionLength(1); err != nil {
+				return err
+			}
 			intf.TimestampResolution = NgResolution(r.currentOption.value[0])
 		}
 	}
@@ -470,14 +492,26 @@ OPTIONS:
 		case ngOptionCodeComment:
 			stats.Comment = string(r.currentOption.value)
 		case ngOptionCodeInterfaceStatisticsStartTime:
+			if err := r.checkOptionLength(8); err != nil {
+				return err
+			}
 			ts = uint64(r.getUint32(r.currentOption.value[:4]))<<32 | uint64(r.getUint32(r.currentOption.value[4:8]))
 			stats.StartTime = time.Unix(r.convertTime(ifaceID, ts)).UTC()
 		case ngOptionCodeInterfaceStatisticsEndTime:
+			if err := r.checkOptionLength(8); err != nil {
+				return err
+			}
 			ts = uint64(r.getUint32(r.currentOption.value[:4]))<<32 | uint64(r.getUint32(r.currentOption.value[4:8]))
 			stats.EndTime = time.Unix(r.convertTime(ifaceID, ts)).UTC()
 		case ngOptionCodeInterfaceStatisticsInterfaceReceived:
+			if err := r.checkOptionLength(8); err != nil {
+				return err
+			}
 			stats.PacketsReceived = r.getUint64(r.currentOption.value[:8])
 		case ngOptionCodeInterfaceStatisticsInterfaceDropped:
+			if err := r.checkOptionLength(8); err != nil {
+				return err
+			}
 			stats.PacketsDropped = r.getUint64(r.currentOption.value[:8])
 		}
 	}
@@ -595,10 +629,16 @@ OPTIONS:
 		case ngOptionCodeComment:
 			opts.Comments = append(opts.Comments, string(r.currentOption.value))
 		case ngOptionCodeEpbFlags:
+			if err := r.checkOptionLength(4); err != nil {
+				return opts, err
+			}
 			flags := NgEpbFlags{}
 			flags.FromUint32(binary.LittleEndian.Uint32(r.currentOption.value))
 			opts.Flags = &flags
 		case ngOptionCodeEpbHash:
+			if err := r.checkOptionLength(1); err != nil {
+				return opts, err
+			}
 			v := make([]byte, len(r.currentOption.value)-1)
 			copy(v, r.currentOption.value[1:])
 			opts.Hashes = append(opts.Hashes, NgEpbHash{
@@ -606,15 +646,27 @@ OPTIONS:
 				Hash:      v,
 			})
 		case ngOptionCodeEpbDropCount:
+			if err := r.checkOptionLength(8); err != nil {
+				return opts, err
+			}
 			v := binary.LittleEndian.Uint64(r.currentOption.value)
 			opts.DropCount = &v
 		case ngOptionCodeEpbPacketID:
+			if err := r.checkOptionLength(8); err != nil {
+				return opts, err
+			}
 			v := binary.LittleEndian.Uint64(r.currentOption.value)
 			opts.PacketID = &v
 		case ngOptionCodeEpbQueue:
+			if err := r.checkOptionLength(4); err != nil {
+				return opts, err
+			}
 			v := binary.LittleEndian.Uint32(r.currentOption.value)
 			opts.Queue = &v
 		case ngOptionCodeEpbVerdict:
+			if err := r.checkOptionLength(1); err != nil {
+				return opts, err
+			}
 			v := make([]byte, len(r.currentOption.value)-1)
 			copy(v, r.currentOption.value[1:])
 			opts.Verdicts = append(opts.Verdicts, NgEpbVerdict{
